@@ -40,6 +40,9 @@ def main():
         # patch against HEAD
         assert sh("git", "-C", REPO, "status", "--porcelain", "--untracked-files=no").stdout.strip() == ""
         src_patch = os.path.join(out, "patch%s.diff" % k)
+        if os.path.exists(os.path.join(out, "patch%s.head.diff" % k)):
+            # the delivered patch no longer applies after a repair touched the same lines: ported by hand
+            src_patch = os.path.join(out, "patch%s.head.diff" % k)
         r = sh("git", "-C", REPO, "apply", src_patch)
         if r.returncode != 0:
             r = sh("git", "-C", REPO, "apply", "--3way", src_patch)
